@@ -20,4 +20,4 @@ def harnesses(tier):
     return hs
 
 ASSUMPTIONS = ['per-construct reference semantics are written in the harnesses (C); children are abstract', 'the whole-program statement is the induction over these steps (argued, not solved)']
-OUTSIDE = ['precedence/associativity of the real Operator() recursion (S3), operator tokenisation (S2)', 'For, Ranged_For, Switch, Fun_Call, Lambda, Def/eval_function, classes/attributes, containers as values (C12)']
+OUTSIDE = ['precedence/associativity of the real Operator() recursion (S3), operator tokenisation (S2)', 'Ranged_For, Fun_Call, Lambda, Def/eval_function, classes/attributes, containers as values (C12)']
